@@ -302,6 +302,55 @@ def check_C10(ctx):
         macros, stream, src = front.macro_case(r)
         texts.append(src)
     res = apply_trace(ctx, texts, [1, 2, 3, 5, 8, 20])
+    # unusual but legal shapes: long file keys (full paths), file keys containing ':' and "_(M", large line numbers,
+    # many passes (multi-digit pass numbers)
+    longnames = [b'/home/student/uni/theoretische-informatik/uebung03/lib/control.theo', b'a:b_(M7)', b'x' * 130,
+                 ('lib/' + 'd' * r.randint(40, 90) + '.theo').encode()]
+    shapes = []
+    for nm in longnames:
+        for defs, uses in TEMP_MACROS:
+            for u in uses[1:]:
+                shapes.append((b'm', {b'm': b'include "' + nm + b'"\n' + u.encode(), nm: (b'\n' * r.choice([0, 3, 12345])) + defs.encode()}))
+    many = 'DEFINE CNT <INT> <INT> <INT> <INT> <INT> <INT> <INT> <INT> <INT> <INT> <INT> <INT> AS #0 := 1; CNT2 END DEFINE\n'
+    shapes.append((b'm', {b'm': ('DEFINE STEP AS #0 := 1 END DEFINE\n' + '; '.join(['STEP'] * 120)).encode()}))
+    sc = impl(ctx, ['SCAN ' + files_req(m, dict(f)) for (m, f) in shapes])
+    for (m, f), sres in zip(shapes, sc):
+        desc = {'main': m.decode('latin1'), 'files': {k.decode('latin1'): v.decode('latin1')[:300] for k, v in f.items()}}
+        if is_crash(sres):
+            continue
+        e = impl(ctx, ['EXTRACT ' + fields(sres)['toks']])[0]
+        if is_crash(e):
+            continue
+        fe = fields(e)
+        req = 'APPLY 200 %s %s' % (fe['macros'], fe['out'])
+        ap = impl(ctx, [req], timeout=60)[0]
+        mo_ = model(ctx, [req], timeout=120)[0] if ctx.driver else None
+        ctx.cov['evaluations'] += 1
+        if is_crash(ap):
+            ctx.violation('apply-crash', 'apply_macros crashed: ' + ap[:200], desc)
+            continue
+        if mo_ is not None and not is_crash(mo_) and fields(mo_).get('toks') != fields(ap).get('toks'):
+            ctx.stage_broken('APPLY stage: model and implementation differ in `toks` (unusual file names / many passes)',
+                             'impl %s\nmodel %s' % (fields(ap)['toks'][:300], fields(mo_)['toks'][:300]), desc)
+        toks = parse_toks(fields(ap)['toks'])
+        temps = [t[1] for t in toks if t[0] == 1 and t[1].startswith(b'#')]
+        per = {}
+        shapeok = True
+        for nmx in temps:
+            mm = re.match(rb'^(#\d+):.*_\(M(\d+)\)$', nmx, re.S)
+            if not mm:
+                ctx.violation('temp-name-shape', 'temporary renamed to %r: the pass marker is missing, temporaries of different steps can collide' % nmx[:90], desc)
+                shapeok = False
+                break
+            per.setdefault((mm.group(1), int(mm.group(2))), set()).add(nmx)
+        if shapeok:
+            names_by_step = {}
+            for (n_, p_), s_ in per.items():
+                if len(s_) > 1:
+                    ctx.violation('temp-two-names', 'one expansion step gave %r two names' % n_, desc)
+                for x in s_:
+                    names_by_step.setdefault(x, set()).add(p_)
+            ctx.nontrivial(repr(desc)[:300])
     TEMP = re.compile(rb'^#\d+:.*_\(M(\d+)\)$', re.S)
     by_text = {}
     for text, b, f, raw in res:
@@ -597,6 +646,22 @@ def check_C04(ctx, thms=None):
             if info.dup:
                 continue          # duplicate labels / parameters: treatment left open by the documentation
             text = sources.text_of_tokens(sources.respell(ts, r), r)
+            cases.append((b'm', {b'm': text.encode('latin1')}, {'text': {'m': text}}))
+            verdicts.append((v, why))
+    # every single insertion of a structural token at every position, and every single deletion, of a few valid sources
+    STRUCT = [',', ';', ':', ':=', 'END', 'DO', '=', 'THEN', 'WITH', 'x0', '3', 'IN', 'OUT']
+    for _ in range(ctx.n(8, 60)):
+        g = sources.Gen(r)
+        defs, main = g.program()
+        base = sources.toks(defs, main)
+        if len(base) > 90:
+            continue
+        variants = [base[:i] + [t] + base[i:] for i in range(len(base) + 1) for t in STRUCT] + [base[:i] + base[i + 1:] for i in range(len(base))]
+        for ts in variants:
+            v, why, info = strict.verdict(ts)
+            if info.dup:
+                continue
+            text = ' '.join(ts)
             cases.append((b'm', {b'm': text.encode('latin1')}, {'text': {'m': text}}))
             verdicts.append((v, why))
     a, b = front.corr_gen(ctx, cases, keys=['ok', 'errs'])
